@@ -34,7 +34,7 @@ pub fn shape_strategy(nmax: u16) -> BoxedStrategy<Shape> {
         .prop_map(move |(n, ti, class)| {
             let t = match class {
                 0 | 1 => n,                      // t = n
-                2 | 3 => 2,                      // t = 2
+                2 => 2,                          // t = 2
                 _ => 2 + idx(ti, (n - 1) as usize) as u16, // uniform in 2..=n
             };
             Shape { n, t }
